@@ -16,4 +16,16 @@ PROPS = {
                 "lengths avoid symbolic-length copies)",
         assumptions=COMMON_ASSUME + ["hook H1 (feature deserr-verif) only re-exports ValuePointerComponent"],
     ),
+    "C05": dict(
+        select=[r"^c05_"],
+        cap_quick=1200, cap_thorough=3600,
+        bounds="one leaf payload per harness through the arena value source: kind symbolic over {null,bool,integer,negative "
+               "integer,float,string}, u64/i64/f64 payload full-width symbolic (no range cut), bool symbolic, string over the table "
+               "['', 'a', U+00E9, U+20AC, U+1F600, 'ab']; answer of the error type symbolic; one harness per target: bool, (), char, "
+               "String, u8..u128/usize, i8..i128/isize, the 12 NonZero types, f32, f64",
+        outside="message TEXT of domain errors (alloc::fmt::format is stubbed: core::fmt is out of reach of CBMC, DESIGN 2.3); "
+                "strings outside the table; value sources other than the arena source (serde_json's number classification is C13)",
+        assumptions=COMMON_ASSUME + ["stub: alloc::fmt::format returns an empty String (message text not observed)",
+                                     "float oracle is Rust's `as` conversion (IEEE round-to-nearest) evaluated by the harness"],
+    ),
 }
